@@ -536,7 +536,9 @@ func (c *controlConn) awaitSchemaAgreement() error {
 }
 
 func (c *controlConn) close() {
-	if atomic.CompareAndSwapInt32(&c.state, controlConnStarted, controlConnClosing) {
+	// a heartbeat goroutine that has not run yet must find Closing as well (its CAS then fails and it returns),
+	// so the state is switched whatever it was; only a started heartbeat waits on quit
+	if atomic.SwapInt32(&c.state, controlConnClosing) == controlConnStarted {
 		c.quit <- struct{}{}
 	}
 
